@@ -4,10 +4,13 @@ package c06
 
 import (
 	"fmt"
+	"os"
 	"runtime"
 	"runtime/debug"
 	"strconv"
 	"strings"
+	"sync/atomic"
+	"time"
 
 	sentinel "github.com/alibaba/sentinel-golang/api"
 	"github.com/alibaba/sentinel-golang/core/base"
@@ -27,6 +30,8 @@ type Interp struct {
 	caseNo  uint64
 	entries map[string]*base.SentinelEntry
 	fb      []string
+	steps   uint64
+	inStep  uint32
 }
 
 func New() vh.Interp {
@@ -36,7 +41,27 @@ func New() vh.Interp {
 	runtime.LockOSThread()
 	debug.SetGCPercent(-1)
 	vh.Silence()
-	return &Interp{clk: vh.NewClock(startMs), entries: map[string]*base.SentinelEntry{}}
+	it := &Interp{clk: vh.NewClock(startMs), entries: map[string]*base.SentinelEntry{}}
+	// watchdog (real time): a step that does not return (e.g. a spin loop in a mutated tree) must end the run
+	// with an error instead of hanging the check
+	go func() {
+		last, same := uint64(0), 0
+		for {
+			time.Sleep(2 * time.Second)
+			cur := atomic.LoadUint64(&it.steps)
+			if cur == last && atomic.LoadUint32(&it.inStep) == 1 {
+				same++
+				if same >= 10 {
+					fmt.Fprintln(os.Stderr, "c06: a step has not returned for 20 s (hang in the code under test)")
+					os.Exit(3)
+				}
+			} else {
+				same = 0
+			}
+			last = cur
+		}
+	}()
+	return it
 }
 
 func (it *Interp) Reset() {
@@ -115,6 +140,7 @@ func parseRule(s string) *hotspot.Rule {
 		r.ControlBehavior = hotspot.Reject
 		r.DurationInSec = 1
 		r.Threshold = 1_000_000_000
+		r.ParamsMaxCapacity = 0
 	default:
 		panic("bad rule kind " + s)
 	}
@@ -134,6 +160,11 @@ func parseRule(s string) *hotspot.Rule {
 }
 
 func (it *Interp) Step(t []string, op string) string {
+	atomic.StoreUint32(&it.inStep, 1)
+	defer func() {
+		atomic.AddUint64(&it.steps, 1)
+		atomic.StoreUint32(&it.inStep, 0)
+	}()
 	switch t[0] {
 	case "load":
 		rules := make([]*hotspot.Rule, 0, len(t)-1)
